@@ -3,6 +3,7 @@ CONSTANTS
     Docs = {1, 2, 3, 4}
     MaxOps = 4
     Registry = "stem"
+    RewriteDocs = {1}
     EmitOn = FALSE
 INIT Init
 NEXT Next
